@@ -274,6 +274,8 @@ impl IdmServer {
     #[instrument(level = "debug", skip_all)]
     pub async fn proxy_read(&self) -> Result<IdmServerProxyReadTransaction<'_>, OperationError> {
         let qs_read = self.qs.read().await?;
+        #[cfg(feature = "verif-hooks")]
+        crate::verif::txn::pause("r.oauth2");
         Ok(IdmServerProxyReadTransaction {
             qs_read,
             oauth2rs: self.oauth2rs.read(),
@@ -2356,12 +2358,22 @@ impl IdmServerProxyWriteTransaction<'_> {
         }
 
         // Commit everything.
+        #[cfg(feature = "verif-hooks")]
+        crate::verif::txn::pause("w.apps");
         self.applications.commit();
+        #[cfg(feature = "verif-hooks")]
+        crate::verif::txn::pause("w.oauth2");
         self.oauth2rs.commit();
+        #[cfg(feature = "verif-hooks")]
+        crate::verif::txn::pause("w.credsess");
         self.cred_update_sessions.commit();
+        #[cfg(feature = "verif-hooks")]
+        crate::verif::txn::pause("w.o2prov");
         self.oauth2_client_providers.commit();
 
         trace!("cred_update_session.commit");
+        #[cfg(feature = "verif-hooks")]
+        crate::verif::txn::pause("w.qs");
         self.qs_write.commit()
     }
 }
